@@ -179,6 +179,28 @@ Section Compile.
         | _, _ => None end
     end.
 
+  (* flag locals: the value of the flag after a prefix of its assignment sites *)
+  Fixpoint cflag_sites (l : list (list bexp * bool)) : option (list ((F -> envl -> bool) * bool)) :=
+    match l with
+    | [] => Some []
+    | (gs, v) :: r => match cguards gs, cflag_sites r with
+                      | Some g, Some cr => Some ((g, v) :: cr) | _, _ => None end
+    end.
+  Fixpoint flag_eval (sites : list ((F -> envl -> bool) * bool)) (cur : bool) (f : F) (e : envl) : bool :=
+    match sites with
+    | [] => cur
+    | (g, v) :: r => flag_eval r (if g f e then v else cur) f e
+    end.
+  (* dictionary entries `name@k` (k = 1 .. number of sites; plain `name` when there is a single site).  A flag whose
+     guards do not compile contributes nothing, so every table that reads it fails to compile (fail closed). *)
+  Definition flag_entries (flags : list flag_table) : adict :=
+    flat_map (fun ft =>
+      match cflag_sites (snd ft) with
+      | Some cs =>
+          (if Nat.eqb (List.length cs) 1 then [(fst ft, flag_eval cs false)] else []) ++
+          map (fun k => (fst ft ++ [64] ++ N_to_dec (N.of_nat k), flag_eval (firstn k cs) false)) (seq 1 (List.length cs))
+      | None => [] end) flags.
+
   Definition compile (fall : bool) (tbl : list fn_table) : option (F -> option envl) :=
     match tbl with
     | [] => None
@@ -191,6 +213,10 @@ Section Compile.
     end.
 End Compile.
 Arguments compile {F}. Arguments run {F}. Arguments csites {F}. Arguments chelpers {F}.
+Arguments cflag_sites {F}. Arguments flag_eval {F}. Arguments flag_entries {F}.
+(* the dictionary a table is compiled against: the hand-written atoms + the flags of the function, evaluated from
+   their generated assignment sites *)
+Definition with_flags {F} (dict : adict F) (flags : list flag_table) : adict F := dict ++ flag_entries dict flags.
 
 Definition at_ {F} (s : string) (g : F -> bool) : str * (F -> envl -> bool) := (s2l s, fun f _ => g f).
 
@@ -229,7 +255,7 @@ Definition validate_dict : adict vfacts :=
    at_ "profile in ('LENIENT', 'ULTRA')" (fun f => (v_profile f =? 2) || (v_profile f =? 3));
    at_ "exc#5:emit" (fun f => negb (v_emit_ok f))].
 
-Definition validate_compiled := compile validate_dict false status_validate.
+Definition validate_compiled := compile (with_flags validate_dict status_validate_flags) false status_validate.
 Definition validate_env (f : vfacts) (fix_ diff_only grammar_hint debug_grammar : bool) : option envl :=
   match validate_compiled with Some r => r f | None => None end.
 
@@ -287,7 +313,15 @@ Definition write_dict : adict wfacts :=
    at_ "path_obj.is_symlink()" (fun f => w_post f =? 2);
    at_ "verify_hash != base_hash" (fun f => w_post f =? 3)].
 
-Definition write_compiled := compile write_dict false status_write.
+Definition write_compiled := compile (with_flags write_dict status_write_flags) false status_write.
+(* the final value of the flag local `salvaged` of WriteTool.execute, evaluated from its generated assignment sites
+   (None when the source has no such flag, or a site guard is not understood) *)
+Definition write_salvaged_flag (f : wfacts) : option bool :=
+  match assoc (s2l "salvaged") status_write_flags with
+  | Some sites => match cflag_sites write_dict sites with
+                  | Some cs => Some (flag_eval cs false f empty_envl)
+                  | None => None end
+  | None => None end.
 Definition write_env (f : wfacts) (grammar_hint debug_grammar : bool) : option envl :=
   match write_compiled with Some r => r f | None => None end.
 
@@ -305,7 +339,7 @@ Definition eject_dict : adict efacts :=
    at_ "output_format == 'yaml'" (fun f => j_format f =? 2);
    at_ "output_format == 'markdown'" (fun f => j_format f =? 3);
    at_ "output_format == 'gbnf'" (fun f => j_format f =? 4)].
-Definition eject_compiled := compile eject_dict false status_eject.
+Definition eject_compiled := compile (with_flags eject_dict status_eject_flags) false status_eject.
 Definition eject_env (f : efacts) : option envl :=
   match eject_compiled with Some r => r f | None => None end.
 
@@ -336,7 +370,7 @@ Definition grammar_dict : adict gfacts :=
    at_ "output_format == 'json_schema'" (fun f => g_format f =? 1);
    at_ "schema_def is not None@4" (fun f => if g_schema f then g_loaded f else g_resolved f);
    at_ "exc#3:GBNFCompiler" g_compile_exc].
-Definition grammar_compiled := compile grammar_dict false status_grammar.
+Definition grammar_compiled := compile (with_flags grammar_dict status_grammar_flags) false status_grammar.
 Definition grammar_env (f : gfacts) : option envl :=
   match grammar_compiled with Some r => r f | None => None end.
 
@@ -372,7 +406,7 @@ Definition cli_validate_dict : adict cvfacts :=
    (s2l "validation_status == 'INVALID'@4", fun _ e => e_vs e =? 3);
    at_ "seal_status == SealStatus.INVALID@2" (fun f => cv_seal f =? 1);
    at_ "seal_status == SealStatus.NO_SEAL@2" (fun f => cv_seal f =? 2)].
-Definition cli_validate_compiled := compile cli_validate_dict true status_cli_validate.
+Definition cli_validate_compiled := compile (with_flags cli_validate_dict status_cli_validate_flags) true status_cli_validate.
 Definition cli_validate_env (f : cvfacts) : option envl :=
   match cli_validate_compiled with Some r => r f | None => None end.
 
@@ -398,6 +432,6 @@ Definition cli_write_dict : adict cwfacts :=
    at_ "schema_def is not None" cw_builtin;
    at_ "validation_errors" cw_errs;
    at_ "write_result['status'] == 'error'" cw_write_err].
-Definition cli_write_compiled := compile cli_write_dict true status_cli_write.
+Definition cli_write_compiled := compile (with_flags cli_write_dict status_cli_write_flags) true status_cli_write.
 Definition cli_write_env (f : cwfacts) : option envl :=
   match cli_write_compiled with Some r => r f | None => None end.
